@@ -601,6 +601,7 @@ def oracle_fn(ops, impl):
     bad_session = False
     caller = False        # `note caller`: a sequence the library itself runs
     cert = False          # the last `ledger` said certOk and nothing touched the cavity since
+    fresh = False         # the cavity was formed on the present grid and not replaced yet
     for i, (op, line) in enumerate(zip(ops, impl)):
         w = op.split()
         lw = line.split()
@@ -608,7 +609,7 @@ def oracle_fn(ops, impl):
             continue
         k = w[0]
         if k == 'reset':
-            verts, before, state, vol_checked, caller, cert = {}, None, 0, False, False, False
+            verts, before, state, vol_checked, caller, cert, fresh = {}, None, 0, False, False, False, False
             bad_session = len(w) > 1 and w[1] == 'bad'
             continue
         if k == 'note':
@@ -621,7 +622,11 @@ def oracle_fn(ops, impl):
             continue
         if k in ('new', 'set_state', 'surf_node', 'form') or (k in ST_OPS and k not in ('visible', 'replace')):
             cert = False
-        if line == 'hang' and not bad_session:
+        if (k.startswith('form') or k == 'new') and line != 'bad-op':
+            fresh = True
+        elif (k.startswith('form_') and line == 'bad-op') or (k == 'replace' and line.startswith('ok ')):
+            fresh = False      # what follows runs on a cavity that was already replaced
+        if line == 'hang' and not bad_session and fresh:
             bad.append((i, 'ref_cavity_%s never returns (keep_growing set by a sweep that changes nothing)' % k))
         if k == 'node' and line.startswith('ok '):
             try:
